@@ -816,7 +816,7 @@ void runPlan(const Plan &p, pbt::Case &c)
         std::unique_lock<std::mutex> lk(m);
         if (cv.wait_for(lk, std::chrono::seconds(secs), [this] { return done; })) return;
         char cmd[512];
-        std::snprintf(cmd, sizeof cmd, "gdb -p %d -batch -ex 'thread apply all bt 25' > /tmp/wk_C01/hang_%d.txt 2>&1", (int)getpid(), (int)getpid());
+        std::snprintf(cmd, sizeof cmd, "gdb -p %d -batch -ex 'thread apply all bt 25' > /tmp/c01_hang_%d.txt 2>&1", (int)getpid(), (int)getpid());
         int rc = std::system(cmd);
         (void)rc;
       });
@@ -1307,7 +1307,7 @@ void runPlan(const Plan &p, pbt::Case &c)
                        (unsigned long long)k.wrCalls, (unsigned long long)k.rdCalls, (unsigned long long)k.rdAgainReal, (unsigned long long)k.rdBytes,
                        (unsigned long long)k.wrBytes, c01net::lastEngineStreamFd(), describe(p).c_str());
           char cmd[512];
-          std::snprintf(cmd, sizeof cmd, "gdb -p %d -batch -ex 'thread apply all bt 30' > /tmp/wk_C01/stall_%d.txt 2>&1", (int)getpid(), (int)getpid());
+          std::snprintf(cmd, sizeof cmd, "gdb -p %d -batch -ex 'thread apply all bt 30' > /tmp/c01_stall_%d.txt 2>&1", (int)getpid(), (int)getpid());
           lk.unlock();
           int rc = std::system(cmd);
           (void)rc;
